@@ -14,7 +14,7 @@ abbrev LM := List (String × Nat)
 
 /-- `mangleLabel` as a pure function. -/
 def freshLabel (mod : String) (lm : LM) (ident : String) : String × LM :=
-  (s!"{mod}_{ident}{(lm.lookup ident).getD 0}",
+  (s!"{mod}.{ident}.{(lm.lookup ident).getD 0}",
    if (lm.lookup ident).isSome then lm.map fun (k, n) => if k == ident then (k, n + 1) else (k, n)
    else lm ++ [(ident, 1)])
 
